@@ -142,7 +142,11 @@ def make_harness(n_calls: int, first_kind: str, later_kinds: list[str] | None = 
                     if kind == "as_dict":
                         out = root.as_dict(serialization_options=opts)
                     elif kind == "to_json":
-                        out = orjson.loads(root.to_json(serialization_options=opts))
+                        variant = e.pick(["to_json-indent", "to_jsonb"] if later_kinds else ["to_json", "to_json-indent", "to_jsonb", "to_jsonb-indent"], f"json_variant{step}")
+                        if variant.startswith("to_jsonb"):
+                            out = orjson.loads(root.to_jsonb(indent=variant.endswith("indent"), serialization_options=opts))
+                        else:
+                            out = orjson.loads(root.to_json(indent=variant.endswith("indent"), serialization_options=opts))
                     elif kind == "to_msgpck":
                         out = msgpack.unpackb(root.to_msgpck(serialization_options=opts), raw=False)
                     else:
